@@ -15,6 +15,7 @@ import (
 	"os/exec"
 	"path/filepath"
 	"sort"
+	"strings"
 	"sync"
 
 	zlint "github.com/zmap/zlint/v3"
@@ -34,6 +35,7 @@ type OracleResp struct {
 	CfgErr  string         `json:"cfg_err,omitempty"`
 	Results map[string]Res `json:"results"`
 	Panics  map[string]string `json:"panics,omitempty"` // lint -> panic that escaped Lint*Ex
+	Crash   string            `json:"crash,omitempty"`  // the Go runtime ended the reference process (client side only, never cached): marker and first zlint frame
 	Hung    bool              `json:"hung,omitempty"`   // the reference process did not finish (client side only, never cached)
 }
 
@@ -222,6 +224,15 @@ func refReq(req *OracleReq) *OracleResp {
 			oracleCounters.inc("oracle_process_hung")
 			return &OracleResp{Results: map[string]Res{}, Panics: map[string]string{}, Hung: true}
 		}
+		// the Go runtime ended the reference process: every goroutine blocked for good (a lint waiting on
+		// its own helpers), unsynchronised map access, runaway recursion - the lint of this object alone
+		// does not return normally; that is a statement about the code, not trouble of the harness
+		for _, marker := range []string{"all goroutines are asleep - deadlock", "fatal error: concurrent map", "fatal error: stack overflow", "goroutine stack exceeds"} {
+			if strings.Contains(errb.String(), marker) && strings.Contains(errb.String(), "github.com/zmap/zlint/v3/") {
+				oracleCounters.inc("oracle_process_crashed")
+				return &OracleResp{Results: map[string]Res{}, Panics: map[string]string{}, Hung: true, Crash: marker + ": " + crashSite(errb.String())}
+			}
+		}
 		die(2, "oracle process failed: %v: %s", err, errb.String())
 	}
 	var r OracleResp
@@ -251,4 +262,18 @@ func sortedResNames(m map[string]Res) []string {
 	}
 	sort.Strings(ks)
 	return ks
+}
+
+// crashSite is the first frame of zlint's own packages in a Go runtime crash report.
+func crashSite(trace string) string {
+	for _, ln := range strings.Split(trace, "\n") {
+		if i := strings.Index(ln, "github.com/zmap/zlint/v3/"); i >= 0 && !strings.HasPrefix(ln, "\t") {
+			f := ln[i+len("github.com/zmap/zlint/v3/"):]
+			if j := strings.LastIndex(f, "("); j > 0 {
+				f = f[:j]
+			}
+			return f
+		}
+	}
+	return ""
 }
